@@ -5,6 +5,7 @@ package data_model
 import (
 	"math"
 
+	"github.com/VKCOM/statshouse/internal/data_model/gen2/tl"
 	"github.com/VKCOM/statshouse/internal/data_model/gen2/tlstatshouse"
 	"github.com/VKCOM/statshouse/internal/format"
 	v "github.com/VKCOM/statshouse/internal/zzverif"
@@ -160,4 +161,43 @@ func Harness_C12_apply_unique() {
 	}
 	v.Assert("C12.unique.each_inserted_once", mv.HLL.ItemsCount() == distinct)
 	v.Reach("C12.unique.end")
+}
+
+// MapValidateTag for a known tag ("1") of a known metric with a 4..6-byte value over the alphabet {39, 02, 58, 56, 'a', space}: the event
+// stays valid exactly when the value normalises without error (format.AppendValidStringValue, whose own
+// contract is C11) and does not contain the corrupted-balancer signature 39 02 58 56; every rejected
+// value leaves exactly one reason (encoding or corrupted) and the tag key in the header.
+func Harness_C12_tag_value() {
+	meta := &format.MetricMetaValue{MetricID: 5, Tags: make([]format.MetricMetaTag, 3)}
+	for i := range meta.Tags {
+		meta.Tags[i].Index = int32(i)
+	}
+	n := 4 + v.Choice(3)
+	raw := make([]byte, n)
+	for i := range raw {
+		b := v.NondetU8()
+		// alphabet: the four signature bytes (one of them a control character), a letter and a space;
+		// the full byte range of the normalisation itself is C11
+		v.Assume(v.Or(v.Or(b == 0x39, b == 0x02), v.Or(v.Or(b == 0x58, b == 0x56), v.Or(b == 'a', b == ' '))))
+		raw[i] = b
+	}
+	contains := false
+	for i := 0; i+4 <= n; i++ {
+		contains = v.Or(contains, v.And(v.And(raw[i] == 0x39, raw[i+1] == 0x02), v.And(raw[i+2] == 0x58, raw[i+3] == 0x56)))
+	}
+	_, encErr := format.AppendValidStringValue(nil, append([]byte(nil), raw...))
+	kv := tl.DictFieldStringStringBytes{Key: []byte("1"), Value: append([]byte(nil), raw...)}
+	h := MappedMetricHeader{MetricMeta: meta}
+	tagMeta, tagIDKey, valid := MapValidateTag(&kv, &tlstatshouse.MetricBytes{}, &h, nil)
+	v.Assert("C12.tag.known_tag_found", tagMeta == &meta.Tags[1] && tagIDKey == 1+format.TagIDShift)
+	if encErr != nil {
+		v.Assert("C12.tag.bad_encoding_rejected_with_reason", !valid && h.IngestionStatus == format.TagValueIDSrcIngestionStatusErrMapTagValueEncoding && h.IngestionTagKey == tagIDKey)
+		v.Reach("C12.tag.encoding")
+	} else if contains {
+		v.Assert("C12.tag.corrupted_value_rejected_with_reason", !valid && h.IngestionStatus == format.TagValueIDSrcIngestionStatusErrMapTagValueCorrupted && h.IngestionTagKey == tagIDKey)
+		v.Reach("C12.tag.corrupted")
+	} else {
+		v.Assert("C12.tag.clean_value_accepted_without_status", valid && h.IngestionStatus == 0)
+		v.Reach("C12.tag.accepted")
+	}
 }
